@@ -10,4 +10,8 @@ def check(ctx, prog):
     model.rule_init_coherence(ctx, prog)
     model.rule_trigger_join(ctx, prog)
     optimize.rule_offset_primitives(ctx, prog)
-    engine.rule_writeback(ctx, prog, want=("R-OFFSET-ROUNDTRIP",))
+    engine.rule_writeback(ctx, prog, want=("R-OFFSET-ROUNDTRIP", "R-WRITEBACK-MONO"))
+    # one constraint seeing one shared domain through several views is where the shared-domain encoding differs from the
+    # separate-variables encoding: the views must be intersected (R-WRITEBACK-MONO) and the constraint re-run after its own write-back
+    engine.rule_queue_drain(ctx, prog)
+    engine.rule_queue_writers(ctx, prog, thorough=ctx.tier == "thorough")
